@@ -575,6 +575,12 @@ def _check_discipline(ctx, rep, cls, field, disc, ws, reads, acc):
             ok = a.kind == 'assign' and prev is not None and 'pickle.dump' in norm(prev) and \
                 ('self.%s' % partner) in norm(prev) and isinstance(a.stmt, ast.Assign) and \
                 norm(a.stmt.value) == 'self.%s.tell()' % partner
+            if not ok and a.kind == 'assign' and isinstance(a.stmt, ast.Assign) and isinstance(a.stmt.value, ast.Name) and \
+                    isinstance(prev, ast.Assign) and len(prev.targets) == 1 and norm(prev.targets[0]) == a.stmt.value.id and \
+                    norm(prev.value) == 'self.%s.tell()' % partner:
+                # `position = self.F.tell(); self.mark = position` right after the dump: the same position, through a local
+                pp = _prev_sibling(pm, prev)
+                ok = pp is not None and 'pickle.dump' in norm(pp) and ('self.%s' % partner) in norm(pp)
             if not ok:
                 problems.append((a, 'the high-water mark self.%s must be assigned from self.%s.tell() directly after '
                                     'the dump' % (field, partner)))
@@ -747,7 +753,14 @@ def _spill_file(ctx, cls, field, mark, ws, reads, acc):
                 problems.append((a, 'dump to the shared spill file without seek(self.%s) directly before it: another '
                                     'iterator may have moved the file position, so cached rows are overwritten' % mark))
             nxt = _next_sibling(pm, a.stmt)
-            if not (isinstance(nxt, ast.Assign) and any(norm(t) == 'self.%s' % mark for t in nxt.targets)):
+            direct = isinstance(nxt, ast.Assign) and any(norm(t) == 'self.%s' % mark for t in nxt.targets)
+            if not direct and isinstance(nxt, ast.Assign) and len(nxt.targets) == 1 and isinstance(nxt.targets[0], ast.Name) and \
+                    norm(nxt.value) == 'self.%s.tell()' % field:
+                # `position = self.F.tell()` first, `self.mark = position` as the very next statement
+                n2 = _next_sibling(pm, nxt)
+                direct = isinstance(n2, ast.Assign) and any(norm(t) == 'self.%s' % mark for t in n2.targets) and \
+                    norm(n2.value) == nxt.targets[0].id
+            if not direct:
                 problems.append((a, 'the high-water mark self.%s is not updated directly after the dump' % mark))
             # reachable only when the cursor reached the mark
             guarded = False
